@@ -108,7 +108,9 @@ func confineName(r *Rng) string {
 
 // symlink targets that lead out of the root but stay inside the canary tree
 var confineTargets = []string{"/{T}/w/r/canary", "../canary", "../../canary2", "../root2", "/{T}/w/r/root2", "../canary/sentinel", "/{T}/w/r/root2/secret",
-	"../../../top-sentinel", "..", "../..", "/{T}", "../../../cache", "/{T}/w/r/root/a", "a", ".", "a/../../canary", "/{T}/w/r/newdir", "../newdir"}
+	// (no absolute link to the top directory ITSELF: the model's top is one component below "/", the real scratch
+	// directory lies deeper, and whether the in-memory overlay can create a node THROUGH such a link depends on that depth)
+	"../../../top-sentinel", "..", "../..", "/{T}/w", "../../../cache", "/{T}/w/r/root/a", "a", ".", "a/../../canary", "/{T}/w/r/newdir", "../newdir"}
 
 var confineWriteMethods = []string{"writefile", "mkdirall", "mkdir", "create", "openfile-create", "openfile", "chmod", "chown", "chtimes", "remove", "symlink", "link", "mknod"}
 var confineReadMethods = []string{"open", "openreaderat", "stat", "lstat", "readdir", "readfile", "readnod", "readlink", "setxattr", "getxattr", "listxattrs", "removexattr"}
